@@ -16,11 +16,12 @@ ASSUMPTIONS = ['indices are Python ints', 'hand-given CSR triples are valid (mon
 
 
 def queries(R, C, vals, dtype='int'):
-    rs = list(range(-2, R + 2)) + [10 ** 6, -10 ** 6]
-    cs = list(range(-2, C + 2)) + [10 ** 6]
-    cells = [[r, c] for r in rs for c in cs if -2 <= r <= R + 1 or c in (0, -1)]
+    # the whole window of negative indices that Python slicing / indexing would wrap around (-R-2 .. -1), not just -1 and -2
+    rs = list(range(-R - 3, R + 3)) + [10 ** 6, -10 ** 6]
+    cs = list(range(-C - 3, C + 3)) + [10 ** 6, -10 ** 6]
+    cells = [[r, c] for r in rs for c in cs if -2 <= r <= R + 1 or c in (0, -1, 1) or r == c or r == -c]
     rows = rs
-    civ = [[r, v] for r in range(-1, R + 1) for v in sorted(set(vals) | ({0, 7} if dtype != 'bool' else {0, 1}))]
+    civ = [[r, v] for r in rs for v in sorted(set(vals) | ({0, 7} if dtype != 'bool' else {0, 1}))]
     return {'cells': cells, 'rows': rows, 'civ': civ}
 
 
